@@ -89,7 +89,7 @@ Theorem C09_okb_spec : forall c : case,
   okb c = true <->
   (forall r, In r (c_rows c) -> r_tree r <> None)
   /\ (out_of_statement c = false ->
-      forall o n, In (o, n) (c_keep c) ->
+      forall o n, In (o, n) (c_keep c ++ c_keep_side c) ->
         let t := ext_table c (length (c_rows c)) in
         tab_tree t (N.to_nat n) = tab_tree t (N.to_nat o)).
 Proof. exact okb_spec. Qed.
